@@ -14,9 +14,10 @@
        the harness observation
          `(parse tag same (ranges ..) nlines (linelens ..) (linewidths ..) (flags ..) (info ..) (hook ..))`
        (harness/src/mode_parse.rs), `(hang)` and `(abort n)` (vlib/core.py: no output for STALL seconds / process died).
-       Known findings (narrow classes decided from the text + the predicted wrong observation): mika-close-loop,
-       exp-nesting, stack-overflow-prefix-run, ebnf-todo-panic, empty-inline-equation, fence-zero-range,
-       fmt-count-underflow. *)
+       Open known findings (narrow classes decided from the text + the predicted wrong observation): exp-nesting,
+       stack-overflow-prefix-run.  Five defects this check found are fixed in /repo (d162281 body progress check,
+       6eb0df4 located fence errors / no todo!(), 213fdb6 format_error count, 35b608b empty inline equation): their
+       witnesses stay in the generator and are now judged like every other text. *)
 From Coq Require Import List Arith ZArith String Ascii Bool.
 From MechV Require Import Base.Sexp Base.Obs.
 Import ListNotations.
@@ -227,12 +228,13 @@ Section Loops.
   Definition section (i : nat) (log : list crange) : option sres :=
     section_loop (S len) (match ul_subtitle i with Some j => j | None => i end) log.
 
-  (* mechdown.rs::body — one iteration *)
+  (* mechdown.rs::body — one iteration.  Since fix d162281 the loop is left when the section consumed nothing
+     (`if input.cursor == new_input.cursor { break; }`): the rest is then reported by parse() as not parsed. *)
   Definition body_step (i : nat) (log : list crange) : bstep :=
     if Nat.leb len i then BRet (SOk i log)
     else match section i log with
          | None => BHang
-         | Some (SOk j log') => BNext j log'
+         | Some (SOk j log') => if Nat.eqb j i then BRet (SOk i log) else BNext j log'
          | Some (SErr s k log') => BRet (SErr s k log')
          end.
 
@@ -242,6 +244,25 @@ Section Loops.
     | S f => match body_step i log with
              | BRet r => Some r
              | BNext j log' => body_loop f j log'
+             | BHang => None
+             end
+    end.
+
+  (* the loop as it was before that fix (no progress check): kept only to state what the check repairs *)
+  Definition body_step_unguarded (i : nat) (log : list crange) : bstep :=
+    if Nat.leb len i then BRet (SOk i log)
+    else match section i log with
+         | None => BHang
+         | Some (SOk j log') => BNext j log'
+         | Some (SErr s k log') => BRet (SErr s k log')
+         end.
+
+  Fixpoint body_loop_unguarded (fuel i : nat) (log : list crange) : option sres :=
+    match fuel with
+    | O => None
+    | S f => match body_step_unguarded i log with
+             | BRet r => Some r
+             | BNext j log' => body_loop_unguarded f j log'
              | BHang => None
              end
     end.
@@ -292,6 +313,9 @@ Definition L_section (L : leaves) : nat -> list crange -> option sres :=
           (l_close_at L) (l_ul_subtitle L) (l_mika L) (l_sect_elem L) (l_blank_lines L).
 Definition L_body_loop (L : leaves) : nat -> nat -> list crange -> option sres :=
   body_loop (l_len L) (l_not_mech L) (l_alt L) (l_subtitle_at L) (l_skip_eos L) (l_term L)
+            (l_close_at L) (l_ul_subtitle L) (l_mika L) (l_sect_elem L) (l_blank_lines L).
+Definition L_body_loop_unguarded (L : leaves) : nat -> nat -> list crange -> option sres :=
+  body_loop_unguarded (l_len L) (l_not_mech L) (l_alt L) (l_subtitle_at L) (l_skip_eos L) (l_term L)
             (l_close_at L) (l_ul_subtitle L) (l_mika L) (l_sect_elem L) (l_blank_lines L).
 Definition L_parse (L : leaves) : outcome :=
   parse (l_len L) (l_not_mech L) (l_alt L) (l_subtitle_at L) (l_skip_eos L) (l_term L)
@@ -449,21 +473,7 @@ Definition hrec_okb (h : hrec) : bool :=
        then (0 <=? h_a h)%Z && (h_a h <=? h_b h)%Z && (h_b h <=? h_len h)%Z
   else false.
 
-(* ---- known findings (classes decided from the text alone) ---- *)
-Fixpoint starts_with (pat s : string) : bool :=
-  match pat, s with
-  | EmptyString, _ => true
-  | String a p', String b s' => Ascii.eqb a b && starts_with p' s'
-  | _, EmptyString => false
-  end.
-Fixpoint contains (pat s : string) : bool :=
-  starts_with pat s || match s with EmptyString => false | String _ r => contains pat r end.
-
-(* mika-close-loop: the text contains the grapheme U+2E25 (bytes E2 B8 A5) *)
-Definition mika_close_bytes : string :=
-  String (ascii_of_nat 226) (String (ascii_of_nat 184) (String (ascii_of_nat 165) EmptyString)).
-Definition kf_mika_close (text : string) : bool := contains mika_close_bytes text.
-
+(* ---- known findings still open (classes decided from the text alone) ---- *)
 (* exp-nesting: naive nesting depth of ( [ { over the bytes (closers never go below 0) *)
 Definition is_open (n : nat) : bool := Nat.eqb n 40 || Nat.eqb n 91 || Nat.eqb n 123.
 Definition is_close (n : nat) : bool := Nat.eqb n 41 || Nat.eqb n 93 || Nat.eqb n 125.
@@ -480,12 +490,6 @@ Definition nest_depth (s : string) : nat := nest_from 0 0 s.
 Definition nest_threshold : nat := 6.
 Definition kf_exp_nesting (text : string) : bool := Nat.leb nest_threshold (nest_depth text).
 
-(* fmt-count-underflow: TextFormatter::format_error computes `errors.0.len() - n` (source length in BYTES minus
-   the number of errors shown, n = min(#errors, 10)) in usize: it underflows iff the text has fewer bytes than n *)
-Definition fmt_shown (nerr : Z) : Z := Z.min nerr 10.
-Definition fmt_count (text : string) (nerr : Z) : Z := (byte_lenZ text - fmt_shown nerr)%Z.
-Definition kf_fmt_underflow (text : string) (nerr : Z) : bool := (fmt_count text nerr <? 0)%Z.
-
 (* stack-overflow-prefix-run: a run of prefix operators / kind brackets: negate_factor, not_factor and kind_annotation
    recurse once per character; the longest run of bytes among '-' '!' '<' *)
 Definition is_prefix_op (n : nat) : bool := Nat.eqb n 45 || Nat.eqb n 33 || Nat.eqb n 60.
@@ -498,54 +502,31 @@ Definition max_prefix_run (s : string) : nat := run_from 0 0 s.
 Definition run_threshold : nat := 400.
 Definition kf_stack_run (text : string) : bool := Nat.leb run_threshold (max_prefix_run text).
 
-(* fenced code blocks: a fence sigil and a tag *)
-Definition has_fence (text : string) : bool := contains "```" text || contains "~~~" text.
-Definition robot_bytes : string :=
-  String (ascii_of_nat 240) (String (ascii_of_nat 159) (String (ascii_of_nat 164) (String (ascii_of_nat 150) EmptyString))).
-(* fence-zero-range: a ```mech / ```mec / ```🤖 block whose code mech_code rejects yields the hand-built
-   ParseError { cause_range: SourceRange::default() } = 0:0-0:0 (mechdown.rs::code_block) *)
-Definition kf_fence_zero (text : string) : bool := has_fence text && (contains "mec" text || contains robot_bytes text).
-(* ebnf-todo-panic: a ```ebnf block whose grammar parse_grammar rejects runs into `todo!()` *)
-Definition kf_ebnf (text : string) : bool := has_fence text && contains "ebnf" text.
-
-(* empty-inline-equation: "$$$$" — inline_equation merges zero tokens and unwraps None *)
-Definition kf_empty_eq (text : string) : bool := contains "$$$$" text.
+(* TextFormatter::format_error's count of errors not shown, since fix 213fdb6: `errors.1.len() - n`, n = min(len, 10) *)
+Definition fmt_not_shown (nerr : Z) : Z := (nerr - Z.min nerr 10)%Z.
 
 (* ---- the verdict ---- *)
 Definition has_flag (f : string) (fl : list string) : bool := existsb (String.eqb f) fl.
 
+(* SourceRange::default() = 0:0-0:0: what a hand-built ParseError carried before fix 6eb0df4 *)
 Definition is_zero (r : srange) : bool :=
   (sr_r1 r =? 0)%Z && (sr_c1 r =? 0)%Z && (sr_r2 r =? 0)%Z && (sr_c2 r =? 0)%Z.
 Definition range_okb (ws : list Z) (r : srange) : bool := range_withinb ws r && fmt_safeb r.
 
-(* everything the property fixes about one observation except the flags, as a boolean;
-   allow_zero = true tolerates cause ranges that are exactly 0:0-0:0 (finding fence-zero-range) *)
-Definition obs_corb (text : string) (p : pobs) (allow_zero : bool) : bool :=
+(* everything the property fixes about one observation, as a boolean *)
+Definition obs_okb (text : string) (p : pobs) : bool :=
   let bs := text_lines text in
   po_same p &&
   (po_nlines p =? Z.of_nat (List.length bs))%Z &&
   table_okb bs (po_lens p) (po_widths p) &&
-  forallb (fun r => range_okb (po_widths p) r || (allow_zero && is_zero r)) (po_causes p) &&
+  forallb (range_okb (po_widths p)) (po_causes p) &&
   forallb (range_okb (po_widths p)) (po_annots p) &&
   forallb hrec_okb (po_hook p) &&
+  is_nil (po_flags p) &&
   match po_tag p with
   | TgOk => is_nil (po_causes p) && is_nil (po_annots p)
   | TgErr => negb (is_nil (po_causes p))
   | TgPanic => false
-  end.
-
-Definition obs_okb (text : string) (p : pobs) : bool := obs_corb text p false && is_nil (po_flags p).
-
-(* when does format_error panic (dev profile)?  err_location computes `cause.end.col - 1` for each of the first
-   min(n,10) errors: a 0:0-0:0 cause underflows; then `errors.0.len() - n` *)
-Definition pred_fmtpanic (text : string) (p : pobs) : bool :=
-  existsb is_zero (firstn 10 (po_causes p)) || kf_fmt_underflow text (Z.of_nat (List.length (po_causes p))).
-
-Definition flags_matchb (text : string) (p : pobs) : bool :=
-  match po_flags p with
-  | [] => negb (pred_fmtpanic text p)
-  | [f] => String.eqb f "fmtpanic" && pred_fmtpanic text p
-  | _ => false
   end.
 
 Definition first_bad (text : string) (p : pobs) : string :=
@@ -573,29 +554,15 @@ Definition first_bad (text : string) (p : pobs) : string :=
 Definition judge_parse (text : string) (o : robs) : sx :=
   match o with
   | RHang =>
-      if kf_mika_close text then v_kf "mika-close-loop"
-      else if kf_exp_nesting text then v_kf "exp-nesting"
+      if kf_exp_nesting text then v_kf "exp-nesting"
       else v_bad "parser-did-not-return-within-budget" (Ax "ok-or-err")
   | RAbort =>
-      (* the unbounded loop also exhausts memory when the budget is long enough *)
-      if kf_mika_close text then v_kf "mika-close-loop"
-      else if kf_stack_run text then v_kf "stack-overflow-prefix-run"
+      if kf_stack_run text then v_kf "stack-overflow-prefix-run"
       else v_bad "process-aborted" (Ax "ok-or-err")
   | ROther => v_bad "unreadable-observation" (Ax "ok-or-err")
   | RParse p =>
-      match po_tag p with
-      | TgPanic =>
-          if kf_ebnf text && po_same p then v_kf "ebnf-todo-panic"
-          else if kf_empty_eq text && po_same p then v_kf "empty-inline-equation"
-          else v_bad "parser-panicked" (Ax "ok-or-err-in-range")
-      | _ =>
-          if obs_okb text p then v_ok (match po_tag p with TgOk => "tree" | _ => "report" end)
-          else if obs_corb text p true && flags_matchb text p then
-            if existsb is_zero (po_causes p) then
-              (if kf_fence_zero text then v_kf "fence-zero-range" else v_bad "range-outside-input" (Ax "ok-or-err-in-range"))
-            else v_kf "fmt-count-underflow"
-          else v_bad (first_bad text p) (Ax "ok-or-err-in-range")
-      end
+      if obs_okb text p then v_ok (match po_tag p with TgOk => "tree" | _ => "report" end)
+      else v_bad (first_bad text p) (Ax "ok-or-err-in-range")
   end.
 
 Definition judge_c09 (x : sx) : sx :=
